@@ -56,8 +56,8 @@ type Result struct {
 	Sample     any      // optional compact description for evidence samples (default: the scenario)
 }
 
-func (r *Result) Add(v ...Violation)   { r.Violations = append(r.Violations, v...) }
-func (r *Result) Class(c ...string)    { r.Classes = append(r.Classes, c...) }
+func (r *Result) Add(v ...Violation)         { r.Violations = append(r.Violations, v...) }
+func (r *Result) Class(c ...string)          { r.Classes = append(r.Classes, c...) }
 func (r *Result) Fail(k, f string, a ...any) { r.Add(V(k, f, a...)) }
 
 // Spec of one sub-check.
